@@ -71,22 +71,53 @@ def r1_invalidity_filter(chk: Check) -> None:
     chk.expect("cache_key.schema" in unparse(gv.node, 2000), "C02.R1", gv, "get_validator(cache_key) validates against cache_key.schema", "shape not recognised", gv.loc())
 
 
+_LOC_TO_ROLE = {"path": "path_parameters", "header": "headers", "cookie": "cookies", "query": "query"}
+
+
+def _container_roles(fn: FuncInfo) -> dict[str, set[str]]:
+    """role (Case keyword) -> local variable(s) holding that location's ValueContainer in openapi_cases."""
+    roles: dict[str, set[str]] = {}
+    for _n, b in pfind("$v = generate_parameter($L, ...)", fn.node):
+        loc = const_str(b["L"])
+        if loc in _LOC_TO_ROLE:
+            roles.setdefault(_LOC_TO_ROLE[loc], set()).add(b["v"].id)  # type: ignore[attr-defined]
+    for n, b in pfind("$v = ValueContainer(...)", fn.node):
+        call = n.value  # type: ignore[attr-defined]
+        if const_str(kwarg(call, "location")) == "body":
+            roles.setdefault("body", set()).add(b["v"].id)  # type: ignore[attr-defined]
+    return roles
+
+
+def _label_vars(fn: FuncInfo) -> set[str]:
+    """Names whose value reaches ValueContainer(generator=...) (through plain copies)."""
+    out: set[str] = set()
+    work = [kwarg(c, "generator") for c in body_calls(fn) if last_attr(c) == "ValueContainer"]
+    while work:
+        e = work.pop()
+        if isinstance(e, ast.Name) and e.id not in out:
+            out.add(e.id)
+            work += [v for _s, v in assignments_to(fn.node, e.id) if isinstance(v, ast.Name)]
+    return out
+
+
 def r2_factory_label(chk: Check) -> None:
     chk.rule("C02.R2", "SIBLINGS-AGREE(factory, label): wherever the strategy factory falls back to make_positive_strategy, the label variable is set to GenerationMode.POSITIVE in the same block, and that label variable is what goes into ValueContainer(generator=...)", floor=3)
     P = chk.project
-    for ref, factory_var, label_var in ((f"{HYP}:generate_parameter", "strategy_factory", "generator"), (f"{HYP}:openapi_cases", "strategy_factory", "body_generator")):
+    for ref in (f"{HYP}:generate_parameter", f"{HYP}:openapi_cases"):
         fn = P.func(ref)
-        rebinds = [s for s, v in assignments_to(fn.node, factory_var) if v is not None and dotted(v) == "make_positive_strategy"]
-        if not rebinds:
-            chk.undecided("C02.R2", fn, f"{factory_var} = make_positive_strategy", "fallback to positive generation not found", fn.loc())
+        rebinds = [n for n, _b in pfind("$f = make_positive_strategy", fn.node)]
+        label_vars = _label_vars(fn)
+        if not rebinds or not label_vars:
+            chk.undecided("C02.R2", fn, "strategy_factory = make_positive_strategy", "fallback to positive generation / label variable not found", fn.loc())
             continue
+        label_var = sorted(label_vars)[0]
         for s in rebinds:
             from ..astutil import block_of
 
             b = block_of(s)
             blk = b[0] if b else []
-            labels = [x for x in blk if isinstance(x, ast.Assign) and any(isinstance(t, ast.Name) and t.id == label_var for t in x.targets)]
-            construct = f"{factory_var} = make_positive_strategy with {label_var} = POSITIVE"
+            labels = [x for x in blk if isinstance(x, ast.Assign) and any(isinstance(t, ast.Name) and t.id in label_vars for t in x.targets)]
+            construct = "strategy_factory = make_positive_strategy with generator = POSITIVE"
             if labels and dotted(labels[0].value) == "GenerationMode.POSITIVE":
                 chk.ok("C02.R2", fn, construct, "", fn.loc(s))
             elif labels:
@@ -101,19 +132,18 @@ def r2_factory_label(chk: Check) -> None:
             if t == "None":
                 continue
             ok = False
+            fallback_labels = {t_.id for s_ in rebinds for x in (block_of(s_) or [[]])[0] if isinstance(x, ast.Assign) for t_ in x.targets if isinstance(t_, ast.Name)}
             if isinstance(g_, ast.Name):
-                if g_.id == label_var:
-                    ok = True
-                else:
-                    vals = [v for _, v in assignments_to(fn.node, g_.id) if v is not None]
-                    ok = any(isinstance(v, ast.Name) and v.id == label_var for v in vals)
-            construct = f"ValueContainer(generator={t})"
+                # the name handed to the container is (a copy of) the one re-labelled in the fallback block
+                chain = {g_.id} | {v.id for _, v in assignments_to(fn.node, g_.id) if isinstance(v, ast.Name)}
+                ok = bool(chain & fallback_labels)
+            construct = "ValueContainer(generator=<label set next to the factory>)"
             if ok:
-                chk.ok("C02.R2", fn, construct, "", fn.loc(c))
-            elif isinstance(g_, ast.Name) and g_.id in ("generation_mode",) and label_var != g_.id:
+                chk.ok("C02.R2", fn, construct, t, fn.loc(c))
+            elif isinstance(g_, ast.Name) and g_.id in params_of(fn.node) and g_.id not in fallback_labels and fallback_labels:
                 chk.violation("C02.R2", fn, construct, "the container is labelled with the requested mode instead of the mode actually used after the positive fallback", fn.loc(c))
             else:
-                chk.undecided("C02.R2", fn, construct, f"label does not visibly derive from `{label_var}`", fn.loc(c))
+                chk.undecided("C02.R2", fn, construct, f"label `{t}` does not visibly derive from the variable re-labelled in the fallback block", fn.loc(c))
 
 
 def r3_something_negated(chk: Check) -> None:
@@ -142,18 +172,17 @@ def r3_something_negated(chk: Check) -> None:
         chk.violation("C02.R3", fn, "the rejecting arm cannot fall through to Case(...)", "when nothing was negated the code still builds a case labelled negative", fn.loc(), g.describe_path(w, fn.module.relpath))
     arg = next((c.args[0] for c in ast.walk(expr) if isinstance(c, ast.Call) and last_attr(c) == "any_negated_values" and c.args), None)
     names = {e.id for e in getattr(arg, "elts", []) if isinstance(e, ast.Name)}
-    want = {"query_", "cookies_", "headers_", "path_parameters_", "body_"}
-    if names:
-        miss = want - names
-        chk.decide(not miss, "C02.R3", fn, "all five containers are considered", f"{sorted(miss)} not considered: a case whose only negated part is there is rejected, or one with nothing negated elsewhere passes", fn.loc())
+    roles = _container_roles(fn)
+    if names and len(roles) == 5:
+        miss = sorted(r for r, vs in roles.items() if not (vs & names))
+        chk.decide(not miss, "C02.R3", fn, "all five containers are considered", f"{miss} not considered: a case whose only negated part is there is rejected, or one with nothing negated elsewhere passes", fn.loc())
     else:
         chk.undecided("C02.R3", fn, "all five containers are considered", "argument list not recognised", fn.loc())
     anv = P.func(f"{HYP}:any_negated_values")
-    t = unparse(anv.node, 2000)
-    chk.expect("value.generator == GenerationMode.NEGATIVE" in t and "if value.is_generated" in t and "any(" in t, "C02.R3", anv, "any_negated_values = any(generator == NEGATIVE for generated values)", "shape not recognised", anv.loc())
+    chk.expect(phas("any(($v.generator == GenerationMode.NEGATIVE for $v in $_ if $v.is_generated))", anv.node), "C02.R3", anv, "any_negated_values = any(generator == NEGATIVE for generated values)", "shape not recognised", anv.loc())
     # skip vs reject
     skip = [n for n in walk_body(fn.node) if isinstance(n, ast.Raise) and "SkipTest" in unparse(n.exc, 100)]
-    chk.decide(bool(skip) and "generation_config.modes == [GenerationMode.NEGATIVE]" in unparse(parent(skip[0]).test if isinstance(parent(skip[0]), ast.If) else None, 200), "C02.R3", fn,  # type: ignore[union-attr]
+    chk.decide(bool(skip) and isinstance(parent(skip[0]), ast.If) and phas("$_.modes == [GenerationMode.NEGATIVE]", parent(skip[0]).test), "C02.R3", fn,  # type: ignore[union-attr]
                "negative-only mode with nothing to negate => SkipTest (reported as skipped)", "an operation that cannot be negated is no longer reported as skipped", fn.loc())
 
 
@@ -162,30 +191,43 @@ def r4_labels(chk: Check) -> None:
     P = chk.project
     fn = P.func(f"{HYP}:openapi_cases")
     gi = [c for c in body_calls(fn) if last_attr(c) == "GenerationInfo"]
-    chk.decide(bool(gi) and unparse(kwarg(gi[0], "mode")) == "generation_mode", "C02.R4", fn, "GenerationInfo(mode=generation_mode)", f"case-level label is `{unparse(kwarg(gi[0], 'mode')) if gi else None}`", fn.loc())
+    mode_params = [a.arg for a in fn.node.args.args + fn.node.args.kwonlyargs if unparse(a.annotation) == "GenerationMode"]
+    chk.decide(bool(gi) and bool(mode_params) and is_var(kwarg(gi[0], "mode"), mode_params[0]), "C02.R4", fn, "GenerationInfo(mode=generation_mode)", f"case-level label is `{unparse(kwarg(gi[0], 'mode')) if gi else None}`", fn.loc())
     comp = next((n for n in walk_body(fn.node) if isinstance(n, ast.DictComp) and "ComponentInfo" in unparse(n.value, 100)), None)
     if comp is None:
         chk.undecided("C02.R4", fn, "components = {kind: ComponentInfo(mode=value.generator) ...}", "comprehension not found", fn.loc())
         return
-    chk.decide(unparse(comp.value) == "ComponentInfo(mode=value.generator)", "C02.R4", fn, "ComponentInfo(mode=value.generator)", f"component label is `{unparse(comp.value)}`", fn.loc(comp))
+    tgt = comp.generators[0].target
+    vname = tgt.elts[1].id if isinstance(tgt, ast.Tuple) and len(tgt.elts) == 2 and isinstance(tgt.elts[1], ast.Name) else None
+    kname = tgt.elts[0].id if isinstance(tgt, ast.Tuple) and len(tgt.elts) == 2 and isinstance(tgt.elts[0], ast.Name) else None
+    if vname is None or not is_var(comp.key, kname):
+        chk.undecided("C02.R4", fn, "ComponentInfo(mode=value.generator)", "comprehension over (kind, container) pairs not recognised", fn.loc(comp))
+        return
+    m = pmatch("ComponentInfo(mode=$v.generator)", comp.value)
+    chk.decide(m is not None and is_var(m["v"], vname), "C02.R4", fn, "ComponentInfo(mode=value.generator)", f"component label is `{unparse(comp.value)}`", fn.loc(comp))
     pairs = {}
     it = comp.generators[0].iter
     for e in getattr(it, "elts", []):
         if isinstance(e, ast.Tuple) and len(e.elts) == 2:
             pairs[dotted(e.elts[0])] = dotted(e.elts[1])
-    want = {"ComponentKind.QUERY": "query_", "ComponentKind.PATH_PARAMETERS": "path_parameters_", "ComponentKind.HEADERS": "headers_", "ComponentKind.COOKIES": "cookies_", "ComponentKind.BODY": "body_"}
-    for k, v in want.items():
+    roles = _container_roles(fn)
+    if len(roles) != 5:
+        chk.undecided("C02.R4", fn, "the five containers", f"only {sorted(roles)} recognised by their defining calls", fn.loc())
+        return
+    want = {"ComponentKind.QUERY": "query", "ComponentKind.PATH_PARAMETERS": "path_parameters", "ComponentKind.HEADERS": "headers", "ComponentKind.COOKIES": "cookies", "ComponentKind.BODY": "body"}
+    for k, role in want.items():
         if k not in pairs:
-            chk.violation("C02.R4", fn, f"{k} -> {v}", f"the {k.split('.')[1].lower()} component is not labelled", fn.loc(comp))
+            chk.violation("C02.R4", fn, f"{k} -> <{role} container>", f"the {k.split('.')[1].lower()} component is not labelled", fn.loc(comp))
         else:
-            chk.decide(pairs[k] == v, "C02.R4", fn, f"{k} -> {v}", f"{k} is labelled from `{pairs[k]}`", fn.loc(comp))
-    conds = [unparse(c) for g_ in comp.generators for c in g_.ifs]
-    chk.expect(conds == ["value.generator is not None"], "C02.R4", fn, "only generated parts are labelled", f"conditions {conds}", fn.loc(comp))
+            chk.decide(pairs[k] in roles[role], "C02.R4", fn, f"{k} -> <{role} container>", f"{k} is labelled from `{pairs[k]}`, which holds {[r for r, vs in roles.items() if pairs[k] in vs] or 'something else'}", fn.loc(comp))
+    conds = [c for g_ in comp.generators for c in g_.ifs]
+    chk.expect(len(conds) == 1 and (m2 := pmatch("$v.generator is not None", conds[0])) is not None and is_var(m2["v"], vname), "C02.R4", fn, "only generated parts are labelled", f"conditions {[unparse(c) for c in conds]}", fn.loc(comp))
     # the Case receives the containers' values
     cc = [c for c in body_calls(fn) if dotted(c.func) == "operation.Case"]
     if cc:
-        for k, v in (("path_parameters", "path_parameters_.value"), ("headers", "headers_.value"), ("cookies", "cookies_.value"), ("query", "query_.value"), ("body", "body_.value")):
-            chk.decide(unparse(kwarg(cc[0], k)) == v, "C02.R4", fn, f"Case({k}={v})", f"`{k}` receives `{unparse(kwarg(cc[0], k))}`", fn.loc(cc[0]))
+        for k in ("path_parameters", "headers", "cookies", "query", "body"):
+            m3 = pmatch("$v.value", kwarg(cc[0], k)) if kwarg(cc[0], k) is not None else None
+            chk.decide(m3 is not None and name_of(m3, "v") in roles[k], "C02.R4", fn, f"Case({k}=<{k} container>.value)", f"`{k}` receives `{unparse(kwarg(cc[0], k))}`", fn.loc(cc[0]))
 
 
 def r5_mutations(chk: Check) -> None:
@@ -206,8 +248,8 @@ def r5_mutations(chk: Check) -> None:
         w2 = g.path(starts, rets, edge_ok=lambda a, b, lbl: not lbl.startswith("exc:")) if eq else None
         rej = any(last_attr(c) == "reject" for c in body_calls(fn))
         chk.decide(rej and w2 is None if eq else None, "C02.R5", fn, "FAILURE arm rejects and cannot fall through", "the failing arm continues to return the schema", fn.loc())
-    t = unparse(fn.node, 100000)
-    chk.expect("always_applied_mutation(self, draw, new_schema)" in t and "new_schema = deepclone(self.keywords)" in t, "C02.R5", fn, "one mutation is always applied, on a deep copy of the keywords", "shape not recognised", fn.loc())
+    cp = pfirst("$n = deepclone(self.keywords)", fn.node)
+    chk.expect(cp is not None and phas("$r = $m(self, $d, $n)", fn.node, env={"n": cp[1]["n"]}) and phas("$m = $d(st.sampled_from($_))", fn.node), "C02.R5", fn, "one mutation is always applied, on a deep copy of the keywords", "shape not recognised", fn.loc())
     ior = P.func("specs/openapi/negative/mutations.py:MutationResult.__or__")
     t = unparse(ior.node, 2000)
     chk.expect("if self == MutationResult.SUCCESS:" in t and "return self" in t and "return other" in t, "C02.R5", ior, "result accumulation: SUCCESS is sticky", "shape not recognised", ior.loc())
